@@ -1,6 +1,6 @@
 (** * C03 — shared waker state: no race, no use-after-free, freed exactly once
     (property theorems only; proofs live in the files they are taken from) *)
-From FB Require Import Base Orderings.
+From FB Require Import Base Syntax World Step Orderings WorldProofs UnboundedProofs StepProofs Reach.
 
 (** (c) with orderings satisfying the side condition (checked against the source text on
     every run, [FBGen.OrderingsInst.orderings_ok]) every access to the shared block by
@@ -11,6 +11,7 @@ Theorem C03_release_acquire :
     orderings_sufficient inc dec fence = true ->
     forall i, i < n -> hb dec fence n last (Acc i) FreeBlk.
 Proof. exact sufficient_hb. Qed.
+Print Assumptions C03_release_acquire.
 
 (** the side condition is not vacuous: without it some owner's accesses are unordered
     with the deallocation *)
@@ -19,3 +20,53 @@ Theorem C03_side_condition_needed :
     orderings_sufficient inc dec fence = false ->
     forall i, i < n -> i <> last -> ~ hb dec fence n last (Acc i) FreeBlk.
 Proof. exact insufficient_no_hb. Qed.
+Print Assumptions C03_side_condition_needed.
+
+(** (a) in every reachable state of every history (any interleaving of push / poll / wake /
+    clone / drop / completion / drop of the collection, any number of handles, handles of
+    finished children, of reused slots, of discarded groups, of dropped collections): the
+    count of every block = the collection's own references + the live cloned wakers pointing
+    to it, and the block is released iff that count is 0 *)
+Theorem C03_refcount_exact :
+  forall (P : params), params_ok P -> forall (ops : list op) (b : nat) (k : block),
+  let s := reach P ops in
+  get_blk (st_world s) b = Some k ->
+  bstrong k = cnt (coll_blks (st_coll s)) b + hcount (handles (st_world s)) b
+  /\ (bfreed k = true <-> bstrong k = 0).
+Proof. exact refcount_exact. Qed.
+Print Assumptions C03_refcount_exact.
+
+(** a live waker never points to a released block (no use after free through any handle) *)
+Theorem C03_handle_target_alive :
+  forall (P : params), params_ok P -> forall (ops : list op) (h b sl : nat),
+  let s := reach P ops in
+  nth_error (handles (st_world s)) h = Some (Some (HChild b sl)) ->
+  exists k, get_blk (st_world s) b = Some k /\ bfreed k = false.
+Proof. exact handle_target_alive. Qed.
+Print Assumptions C03_handle_target_alive.
+
+(** no operation of any history ever runs a vtable entry (wake, wake_by_ref, clone, drop) or
+    a count update on a released or non-existent block: the model marks such an access with
+    [EVtBad], and that event is never emitted *)
+Theorem C03_no_access_to_released_block :
+  forall (P : params), params_ok P -> forall (ops : list op),
+  Forall (Forall (fun e => bad_event e = false)) (run P init_state ops).
+Proof. exact run_events_clean. Qed.
+Print Assumptions C03_no_access_to_released_block.
+
+(** no leak: once the collection is gone and every cloned waker was dropped, every block is released *)
+Theorem C03_no_leak :
+  forall (P : params), params_ok P -> forall (ops : list op),
+  let s := reach P ops in
+  coll_blks (st_coll s) = [] ->
+  (forall h x, nth_error (handles (st_world s)) h = Some (Some x) -> exists t, x = HTask t) ->
+  forall b k, get_blk (st_world s) b = Some k -> bfreed k = true.
+Proof. exact no_leak. Qed.
+Print Assumptions C03_no_leak.
+
+(** a single waker action never breaks the block / count invariant, whatever handle it uses *)
+Theorem C03_waker_action_safe :
+  forall (own : nat -> nat) (cur : cur_t) (cw : option handle) (a : act) (w : world),
+  winv own cur w -> cw_ok own cw -> winv own cur (do_act cw a w).
+Proof. exact winv_do_act. Qed.
+Print Assumptions C03_waker_action_safe.
